@@ -80,37 +80,55 @@ impl<T> SpscRing<T> {
 
     #[inline]
     pub fn is_empty(&self) -> bool {
+        #[cfg(rustrtc_verif)]
+        crate::verif_sched::yield_point(crate::verif_sched::EMPTY_LOADS);
         self.head.load(Ordering::Relaxed) == self.tail.load(Ordering::Relaxed)
     }
 
     #[inline]
     pub fn push(&self, value: T) -> Result<(), T> {
+        #[cfg(rustrtc_verif)]
+        crate::verif_sched::yield_point(crate::verif_sched::PUSH_LOAD_TAIL);
         let tail = self.tail.load(Ordering::Relaxed);
+        #[cfg(rustrtc_verif)]
+        crate::verif_sched::yield_point(crate::verif_sched::PUSH_LOAD_HEAD);
         let head = self.head.load(Ordering::Acquire);
         if tail.wrapping_sub(head) >= self.capacity {
             return Err(value);
         }
 
         let idx = tail % self.capacity;
+        #[cfg(rustrtc_verif)]
+        crate::verif_sched::yield_point(crate::verif_sched::PUSH_WRITE);
         // Safety: producer is the only writer for this slot, and slot is empty because queue isn't full.
         unsafe {
             (*self.buffer[idx].get()).write(value);
         }
+        #[cfg(rustrtc_verif)]
+        crate::verif_sched::yield_point(crate::verif_sched::PUSH_STORE_TAIL);
         self.tail.store(tail.wrapping_add(1), Ordering::Release);
         Ok(())
     }
 
     #[inline]
     pub fn pop(&self) -> Option<T> {
+        #[cfg(rustrtc_verif)]
+        crate::verif_sched::yield_point(crate::verif_sched::POP_LOAD_HEAD);
         let head = self.head.load(Ordering::Relaxed);
+        #[cfg(rustrtc_verif)]
+        crate::verif_sched::yield_point(crate::verif_sched::POP_LOAD_TAIL);
         let tail = self.tail.load(Ordering::Acquire);
         if head == tail {
             return None;
         }
 
         let idx = head % self.capacity;
+        #[cfg(rustrtc_verif)]
+        crate::verif_sched::yield_point(crate::verif_sched::POP_READ);
         // Safety: consumer is the only reader for this slot, and slot is initialized because queue isn't empty.
         let value = unsafe { (*self.buffer[idx].get()).assume_init_read() };
+        #[cfg(rustrtc_verif)]
+        crate::verif_sched::yield_point(crate::verif_sched::POP_STORE_HEAD);
         self.head.store(head.wrapping_add(1), Ordering::Release);
         Some(value)
     }
